@@ -38,6 +38,9 @@ type mutexState struct{ locked bool }
 type rwState struct {
 	writer  bool
 	readers int
+	// happens-before: a write lock orders after every earlier unlock (reader or writer), a
+	// read lock only after earlier write unlocks: two readers are not ordered by the lock
+	rd struct{} // identity of the readers' release clock (key &st.rd)
 }
 
 func (i *Interp) rw(p value) *rwState {
@@ -552,6 +555,7 @@ func init() {
 			}
 			st.writer = true
 			i.vcAcquire(st)
+			i.vcAcquire(&st.rd)
 			return nil
 		},
 		"(*sync.RWMutex).Unlock": func(i *Interp, _ *frame, _ *ssa.Function, a []value) value {
@@ -565,11 +569,11 @@ func init() {
 				fault("RWMutex.RLock would block inside an atomic step")
 			}
 			st.readers++
-			i.vcAcquire(st)
+			i.vcAcquire(st) // after earlier writers only
 			return nil
 		},
 		"(*sync.RWMutex).RUnlock": func(i *Interp, _ *frame, _ *ssa.Function, a []value) value {
-			i.vcRelease(i.rw(a[0]))
+			i.vcRelease(&i.rw(a[0]).rd) // seen by later writers, not by other readers
 			i.rw(a[0]).readers--
 			return nil
 		},
